@@ -124,6 +124,7 @@ static size_t msize(const MI& i) { return pad8(item_size(*i.m)); }
 
 struct Res {
     bool fail = false;
+    bool left_domain = false;         // purge_removed() on a buffer with a top-level item that is not an OSM entity: outside the property's domain, history abandoned
     std::string key, detail;
     uint64_t h1 = 0, h2 = 0;
     bool grew = false;                // some operation of the history relocated/grew the buffer
@@ -355,10 +356,12 @@ bool Ex::apply(const Op& op) {
         if (!MA.unc.empty() && counters_tristate) ++counters_tristate[dropped ? 0 : 1];
         if (dropped) MA.unc.clear();
         growth = moves.empty() ? "nothing-moved" : "moved";
-        if (nonentity) {   // one class for everything that goes wrong because purge only sees OSM entities
-            Snap s; std::string path, detail;
-            if (!buffer_matches(A, MA.com, MA.unc, nullptr, s, path, detail) || s.committed_b != newoff || (op.code == PURGE_CB && cb.calls != moves))
-                return fail("purge/non-entity-top-level-item-not-handled", op.name + ": buffer contains a top-level item that is not an OSM entity; " + (detail.empty() ? "committed bytes " + std::to_string(s.committed_b) + ", expected " + std::to_string(newoff) : detail));
+        if (nonentity) {
+            // Buffer::begin()/end() and purge_removed() are defined over OSM entities (t_iterator<OSMEntity>); a buffer whose top level
+            // holds a bare sub-item list is not an "object assembled through the builder interface" in the sense of the property,
+            // so what purge does with it is left open: the history is abandoned here and only counted.
+            r->left_domain = true;
+            return false;
         }
         if (A.committed() != newoff) return fail("purge/wrong-committed-size", "committed=" + std::to_string(A.committed()) + ", survivors need " + std::to_string(newoff));
         if (op.code == PURGE_CB && cb.calls != moves) {
